@@ -269,3 +269,75 @@ func C17_Fault_Writes() {
 		c05AuditVersions(r, r.first, lv, "c17:failed-rollback-kept")
 	}
 }
+
+var _ = vReg("C17_Fault_ShapeReads", C17_Fault_ShapeReads)
+
+// C17_Fault_ShapeReads: point reads on every AVL+ tree of height <= 2 (so that lookups turn left and
+// right below the root), committed and reopened with nothing cached, with one failing storage call.
+func C17_Fault_ShapeReads() {
+	cfg := &vHistCfg{name: "C17_Fault_ShapeReads", lenVars: 1, valVars: 1, caches: []int{0}, fast: []bool{false, true}, thresh: []int{0}}
+	maxH := 2
+	if vTier() == "thorough" {
+		maxH = 3
+	}
+	h := vShapeState(cfg, maxH, 1, []int{2})
+	n := h.p.n
+	if n == 0 {
+		vStop()
+	}
+	maxJ := 8
+	if vTier() == "thorough" {
+		maxJ = 12
+	}
+	j := vChoice("failAt", maxJ+1)
+	i := vChoice("key", n)
+	k := h.p.keys[i]
+	c0 := h.db.calls
+	h.db.failAt = c0 + j
+	switch vChoice("read", 5) {
+	case 0:
+		val, err := h.tree.Get(k)
+		if err == nil {
+			c17value(val, h.work, i, "c17s:get")
+		}
+	case 1:
+		has, err := h.tree.Has(k)
+		if err == nil {
+			vAssert(has == h.work.present[i], "c17s:has-wrong-answer-without-error")
+		}
+	case 2:
+		idx, val, err := h.tree.GetWithIndex(k)
+		if err == nil {
+			vAssert(idx == int64(h.work.rankOf(i)), "c17s:getwithindex-wrong-index-without-error")
+			c17value(val, h.work, i, "c17s:getwithindex")
+		}
+	case 3:
+		r := vChoice("rank", n)
+		key, val, err := h.tree.GetByIndex(int64(r))
+		if err == nil {
+			pi := h.work.nth(n, r)
+			if pi >= 0 {
+				vAssert(key != nil && vConcreteBool(vEqBytes(key, h.p.keys[pi])), "c17s:getbyindex-wrong-key-without-error")
+				vAssert(vEqBytes(val, h.work.vals[pi]), "c17s:getbyindex-wrong-value-without-error")
+			} else {
+				vAssert(key == nil, "c17s:getbyindex-phantom-without-error")
+			}
+		}
+	case 4:
+		if h.work.size(n) > 0 {
+			p, err := h.tree.GetProof(k)
+			if err == nil {
+				vAssert(p != nil, "c17s:nil-proof-without-error")
+				if h.work.present[i] {
+					vAssert(p.GetExist() != nil && vConcreteBool(vEqBytes(p.GetExist().Value, h.work.vals[i])), "c17s:wrong-proof-without-error")
+				} else {
+					vAssert(p.GetNonexist() != nil, "c17s:wrong-proof-kind-without-error")
+				}
+			}
+		}
+	}
+	vAssert(h.db.calls-c0 <= maxJ+8, "c17s:read-makes-more-storage-calls-than-fault-positions-explored")
+	if h.db.failed > 0 {
+		vCover("shape-fault-hit")
+	}
+}
